@@ -361,6 +361,9 @@ class C03:
                                 enforced = f"`len(point) != 2` is rejected ({v.name})"
             if enforced:
                 ctx.ok("R03.6", f"{FILE}:{c.node.lineno} {c.name}", enforced)
+            elif self._delegates(c, vals):
+                ctx.undec("R03.6", f"{FILE}:{c.node.lineno} {c.name}", f"the point arity is not forced where the rule can read it, but the validators hand the "
+                                                                      f"coordinates to `{self._delegates(c, vals)}`, which the engine did not open")
             else:
                 ctx.bad("R03.6", FILE, c.name, "point arity",
                         f"no validator of {c.name} forces every point to have exactly two values (a two-name unpack of each "
@@ -563,12 +566,46 @@ class C03:
                 ctx.bad("R03.2", FILE, f"{c.name}.{v.name}", f"guard {src}",
                         f"{c.name} rejects valid coordinates: guard `{src}` fires at {shown} although the specification "
                         f"accepts this value", r.lineno, witness={"point": p, "code": "reject", "spec": "accept"})
+            elif self._delegates(c, vals):
+                ctx.undec("R03.2", site, f"no guard of {c.name} that the rule can read rejects {shown}, but its validators hand the coordinates to "
+                                         f"`{self._delegates(c, vals)}`, which the engine did not open: the validation is written in another formulation")
             else:
                 ctx.bad("R03.2", FILE, c.name, f"accepts {shown}",
                         f"{c.name} accepts invalid coordinates: no guard rejects {shown} (specification: times >= 0, "
                         f"frequencies in [0, {self.MAX}], arity/length rules of the type)", c.node.lineno,
                         witness={"point": p, "code": "accept", "spec": "reject"})
         self.check_normal_form(c, normalisers)
+
+    def _delegates(self, c, vals):
+        """name of an in-package callable (function, method of the class, entry of a table, local function) that a validator of `c`
+        calls with its coordinates (or a part of them) and that was NOT opened by the engine -- or None.  Where there is one, "no guard
+        found" is not "no guard": the guard may be inside it."""
+        ctx = self.ctx
+        for v in vals:
+            try:
+                sm = ctx.summ.of_node(c.module, v.node, f"{c.qual}.{v.name}", c)
+            except Exception:  # noqa: BLE001
+                continue
+            vp = ("param", sm.params[1] if len(sm.params) > 1 else sm.params[0])
+
+            def derived(t):
+                return any(x == vp or (x[0] == "elem") for x in walk(t))
+            for e in sm.calls:
+                t = e.term
+                if t[0] != "call":
+                    continue
+                f = t[1]
+                opaque = (f[0] == "global" and f[2] == "func") or (f[0] == "attr" and (f[1] in (("param", "cls"), ("param", "self")) or (f[1][0] == "global" and f[1][2] == "class"))) \
+                    or f[0] in ("lambda", "sub", "ite") or (f[0] == "call" and f[1] in (("ext", "functools.partial"),))
+                if opaque and any(derived(a) for a in list(t[2]) + [x for _, x in t[3]]):
+                    return show(f)[:60]
+                if f[0] == "builtin" and f[1] in ("map", "all", "any", "filter") and any(a[0] in ("global", "lambda") or (a[0] == "call" and a[1][0] in ("ext", "global")) for a in t[2]):
+                    return show(t)[:60]
+        if not vals:
+            # no validator method at all: the checks may hang on the annotation (Annotated[..., AfterValidator(f)]) of an alias the
+            # field table did not resolve
+            return None
+        return None
 
     # ------------------------------------------------------------------ R03.7 the JSON dump is the coordinates themselves
     def check_serialisers(self, classes):
